@@ -213,6 +213,9 @@ func c20Body(c *run.Ctx) {
 	// observer. The snapshot numbers are drawn here, on the test goroutine.
 	kinds := []string{"observer", "system", "player", "scribbler", "observer", "toggler"}
 	toggleAt := c.Ch.Int("toggle.at", 1, 14)
+	// a plain observer attached late, at a drawn snapshot (possibly while a hand runs), with
+	// an adapter built from the engine's live table as a real caller would
+	lateAt := c.Ch.Int("late.at", 2, 18)
 	n := c.Ch.Int("actors", 1, 6)
 	perm := choose.Perm(c.Ch, "actor.order", len(kinds))
 	order := []string{}
@@ -281,6 +284,23 @@ func c20Body(c *run.Ctx) {
 			build(live)
 		}
 		snapshots++
+		if snapshots == lateAt {
+			a := pactor.NewActor()
+			ad := pactor.NewTableEngineAdapter(stubEngine{}, live)
+			a.SetAdapter(ad)
+			x := &att{kind: "observer", adapter: ad}
+			ob := pactor.NewObserverRunner()
+			ob.OnTableStateUpdated(func(t *pokertable.Table) {
+				b, _ := json.Marshal(t)
+				x.got = &received{kind: "observer", t: t, raw: string(b)}
+			})
+			a.SetRunner(ob)
+			x.sw = ob
+			atts = append(atts, x)
+			if live.State.GameState != nil {
+				labels["observer_attached_during_hand"] = true
+			}
+		}
 		if snapshots == toggleAt {
 			for _, x := range atts {
 				if x.kind == "toggler" {
@@ -338,6 +358,20 @@ func c20Body(c *run.Ctx) {
 				if w := sharedWith(x.got.t, y.got.t); w != "" {
 					report("C20.shared-between-actors", fmt.Sprintf("actors %d (%s) and %d (%s) reach the same structure: %s", i, x.kind, j, y.kind, w))
 					return
+				}
+			}
+			// what the adapter itself hands out (GetGameState) is the actor's copy as well
+			if ags := x.adapter.GetGameState(); ags != nil && gs != nil {
+				if ags == gs {
+					report("C20.shared-with-engine", fmt.Sprintf("the adapter of actor %d (%s) hands out the engine's own hand state object", i, x.kind))
+					return
+				}
+				if x.kind == "observer" {
+					tmp := &pokertable.Table{State: &pokertable.TableState{Status: live.State.Status, GameState: ags}}
+					if v := hiddenViolation(tmp); v != "" {
+						report("C20.leak."+string(live.State.Status), fmt.Sprintf("non-system observer, through its adapter's GetGameState: %s; status %s", v, live.State.Status))
+						return
+					}
 				}
 			}
 			switch x.kind {
